@@ -20,6 +20,12 @@ text.  A rule that must tell the two apart uses the epochs of `reads` / `effects
 expression that reads state keeps denoting the value at binding time only as long as the rule checks
 the epochs (or the state is not written in between).
 
+With `follow` (a callback call -> FunctionDef | None, see `follower()`), calls of private helpers and
+of closures defined on the path are *executed on the path*: parameters are bound to the argument
+expressions, the body is walked with its own environment (forking like any other code), its effects
+land in the same log and the call is replaced by what the helper returned.  Helpers of any shape are
+handled this way (several returns, effects, reassigned parameters, tuple results).
+
 Nothing is executed; terms are ast expressions.  Loops are opaque (`effects` gets a 'loop' entry, the
 names the body binds are havocked); `sym_block` lets a rule walk a loop body on its own.
 """
@@ -219,11 +225,108 @@ def clock_call(c: ast.Call) -> bool:
 
 class SymExec:
     def __init__(self, max_paths: int = 4096, pure_self_methods: Iterable[str] = (),
-                 opaque: Any = clock_call) -> None:
+                 opaque: Any = clock_call, follow: Any = None) -> None:
         self.max_paths = max_paths
         self.pure = set(pure_self_methods) | PURE_SELF_METHODS
         self.opaque = opaque
+        self.follow = follow          # call -> FunctionDef of a private helper to execute on the path, or None
+        self.nested: dict[str, Any] = {}
+        self.stack: list[int] = []
+        self.followed: set[str] = set()
         self.done: list[Path] = []
+
+    # ------------------------------------------------------------------ helper calls executed on the path
+    def _target(self, call: ast.Call) -> Any:
+        if getattr(call, "_inlined", False) or len(self.stack) >= 4:
+            return None
+        if isinstance(call.func, ast.Name) and call.func.id in self.nested:
+            t = self.nested[call.func.id]
+        elif self.follow is not None:
+            t = self.follow(call)
+        else:
+            return None
+        if t is None or id(t) in self.stack:
+            return None
+        if any(isinstance(a, ast.Starred) for a in call.args) or any(k.arg is None for k in call.keywords):
+            return None
+        if any(isinstance(n, (ast.Yield, ast.YieldFrom)) for n in ast.walk(t)):
+            return None
+        return t
+
+    def _first_followable(self, e: ast.AST) -> tuple[ast.AST, ast.Call, Any] | None:
+        """(node to replace, call, target) for the first helper call in evaluation order."""
+        found: list[tuple[ast.AST, ast.Call, Any]] = []
+
+        def walk(n: ast.AST) -> None:
+            if found or isinstance(n, (ast.Lambda, ast.ListComp, ast.SetComp, ast.DictComp, ast.GeneratorExp)) \
+                    or getattr(n, "_inlined", False):
+                return
+            for c in ast.iter_child_nodes(n):
+                walk(c)
+                if found:
+                    return
+            if isinstance(n, ast.Await) and isinstance(n.value, ast.Call):
+                t = self._target(n.value)
+                if t is not None and isinstance(t, ast.AsyncFunctionDef):
+                    found.append((n, n.value, t))
+            elif isinstance(n, ast.Call):
+                t = self._target(n)
+                if t is not None and not isinstance(t, ast.AsyncFunctionDef):
+                    found.append((n, n, t))
+
+        walk(e)
+        return found[0] if found else None
+
+    def _call_helper(self, p: Path, call: ast.Call, target: Any, lineno: int) -> list[tuple[Path, ast.AST | None]]:
+        """Execute `target` with the (already substituted) arguments of `call` on path `p`; returns
+        (path, returned expression) pairs; a path on which the helper raised has exit == 'raise'."""
+        a = target.args
+        names = [x.arg for x in a.posonlyargs + a.args]
+        static = any(isinstance(d, ast.Name) and d.id == "staticmethod" for d in target.decorator_list)
+        if names and names[0] in ("self", "cls") and not static and not (
+                isinstance(call.func, ast.Name)):
+            names = names[1:]
+        if len(call.args) > len(names):
+            return [(p, None)]
+        env: dict[str, ast.AST] = dict(zip(names, call.args))
+        for k in call.keywords:
+            env[k.arg] = k.value  # type: ignore[index]
+        defaults = dict(zip(names[len(names) - len(a.defaults):], a.defaults))
+        for n, d in zip([x.arg for x in a.kwonlyargs], a.kw_defaults):
+            if d is not None:
+                defaults[n] = d
+        for n in names + [x.arg for x in a.kwonlyargs]:
+            if n not in env:
+                if n not in defaults:
+                    return [(p, None)]
+                env[n] = defaults[n]
+        for v in env.values():
+            v._inlined = True  # type: ignore[attr-defined]  # evaluated at the call, not where the parameter is read
+        saved_env, saved_nested = p.env, self.nested
+        p.env, self.nested = env, {}
+        self.stack.append(id(target))
+        self.followed.add(target.name)
+        body = target.body
+        if body and isinstance(body[0], ast.Expr) and isinstance(body[0].value, ast.Constant) \
+                and isinstance(body[0].value.value, str):
+            body = body[1:]
+        try:
+            results = self.block(p, list(body))
+        finally:
+            self.stack.pop()
+            self.nested = saved_nested
+        out: list[tuple[Path, ast.AST | None]] = []
+        for q, st in results:
+            q.env = dict(saved_env)
+            if st == "raise":
+                out.append((q, None))
+                continue
+            val = q.ret if st == "return" and q.ret is not None else ast.Constant(None)
+            q.ret, q.exit = None, ""
+            val = copy.deepcopy(val)
+            val._inlined = True  # type: ignore[attr-defined]
+            out.append((q, val))
+        return out
 
     def _fresh(self, p: Path, e: ast.AST) -> ast.AST:
         """Replace every clock call evaluated *here* (not substituted in) by a per-path fresh symbol."""
@@ -268,6 +371,20 @@ class SymExec:
             q, e = work.pop()
             ie = _first_ifexp(e)
             if ie is None:
+                hit = self._first_followable(e) if (self.follow is not None or self.nested) else None
+                if hit is not None:
+                    node, call, target = hit
+                    for q2, val in self._call_helper(q, call, target, lineno):
+                        if q2.exit == "raise" or val is None:
+                            if q2.exit == "raise":
+                                out.append((q2, ast.Constant(None)))
+                                continue
+                            # not followable after all (arity mismatch): keep the call opaque
+                            call._inlined = True  # type: ignore[attr-defined]
+                            work.append((q2, e))
+                            continue
+                        work.append((q2, _copy_replacing(e, node, val)))
+                    continue
                 if log:
                     self._log(q, orig, e, lineno)
                     e = self._fresh(q, e)
@@ -302,9 +419,18 @@ class SymExec:
             for q, o in self._test(p, t.test, lineno, orig):
                 out.extend(self._test(q, t.body if o else t.orelse, lineno, orig))
             return out
-        # an atom (may still contain ternaries in operands: resolve them first)
+        # an atom (may still contain ternaries or helper calls in operands: resolve them first)
         out = []
-        for q, e in self._resolve(p, t, orig, lineno, False) if _first_ifexp(t) is not None else [(p, t)]:
+        needs = _first_ifexp(t) is not None or (
+            (self.follow is not None or self.nested) and self._first_followable(t) is not None)
+        for q, e in self._resolve(p, t, orig, lineno, False) if needs else [(p, t)]:
+            if q.exit == "raise":
+                out.append((q, False))
+                continue
+            if needs and isinstance(e, (ast.BoolOp, ast.IfExp)) or (
+                    needs and isinstance(e, ast.UnaryOp) and isinstance(e.op, ast.Not)):
+                out.extend(self._test(q, e, lineno, orig))
+                continue
             key, pol = cond_key(e)
             if isinstance(key, tuple) and key and key[0] == "const":
                 val = key[1] == pol
@@ -364,14 +490,19 @@ class SymExec:
             return [(p, "next")]
         if isinstance(s, (ast.FunctionDef, ast.AsyncFunctionDef, ast.ClassDef)):
             p.env.pop(s.name, None)
+            if not isinstance(s, ast.ClassDef) and not s.decorator_list:
+                self.nested[s.name] = s   # a closure: calls of it are executed on the path
             return [(p, "next")]
         if isinstance(s, ast.Expr):
             if isinstance(s.value, ast.Constant):
                 return [(p, "next")]
-            return [(q, "next") for q, _e in self.ev(p, s.value, ln)]
+            return [(q, "raise" if q.exit == "raise" else "next") for q, _e in self.ev(p, s.value, ln)]
         if isinstance(s, ast.Assign):
             out = []
             for q, e in self.ev(p, s.value, ln):
+                if q.exit == "raise":
+                    out.append((q, "raise"))
+                    continue
                 for t in s.targets:
                     self._bind(q, t, e, ln)
                 out.append((q, "next"))
@@ -381,6 +512,9 @@ class SymExec:
                 return [(p, "next")]
             out = []
             for q, e in self.ev(p, s.value, ln):
+                if q.exit == "raise":
+                    out.append((q, "raise"))
+                    continue
                 self._bind(q, s.target, e, ln)
                 out.append((q, "next"))
             return out
@@ -391,6 +525,9 @@ class SymExec:
                     n.ctx = ast.Load()  # type: ignore[attr-defined]
             out = []
             for q, e in self.ev(p, ast.BinOp(left=load, op=s.op, right=s.value), ln):
+                if q.exit == "raise":
+                    out.append((q, "raise"))
+                    continue
                 self._bind(q, s.target, e, ln)
                 out.append((q, "next"))
             return out
@@ -400,6 +537,9 @@ class SymExec:
                 return [(p, "return")]
             out = []
             for q, e in self.ev(p, s.value, ln):
+                if q.exit == "raise":
+                    out.append((q, "raise"))
+                    continue
                 q.ret, q.exit, q.lineno = e, "return", ln
                 out.append((q, "return"))
             return out
@@ -413,11 +553,17 @@ class SymExec:
         if isinstance(s, ast.If):
             out = []
             for q, o in self.test(p, s.test, ln):
+                if q.exit == "raise":
+                    out.append((q, "raise"))
+                    continue
                 out.extend(self.block(q, s.body if o else s.orelse))
             return out
         if isinstance(s, ast.Assert):
             out = []
             for q, o in self.test(p, s.test, ln):
+                if q.exit == "raise":
+                    out.append((q, "raise"))
+                    continue
                 if o:
                     out.append((q, "next"))
                 else:
@@ -513,13 +659,13 @@ def _eval_order_calls(e: ast.AST) -> list[ast.Call]:
 
 
 def sym_paths(fn: ast.FunctionDef | ast.AsyncFunctionDef, max_paths: int = 4096,
-              pure_self_methods: Iterable[str] = (), opaque: Any = clock_call) -> list[Path]:
+              pure_self_methods: Iterable[str] = (), opaque: Any = clock_call, follow: Any = None) -> list[Path]:
     """All symbolic paths through `fn` (exit in {'return', 'raise', 'fall'})."""
     body = fn.body
     if body and isinstance(body[0], ast.Expr) and isinstance(body[0].value, ast.Constant) \
             and isinstance(body[0].value.value, str):
         body = body[1:]
-    se = SymExec(max_paths, pure_self_methods, opaque)
+    se = SymExec(max_paths, pure_self_methods, opaque, follow)
     out = []
     for p, st in se.block(Path(), list(body)):
         if st == "next":
@@ -530,9 +676,26 @@ def sym_paths(fn: ast.FunctionDef | ast.AsyncFunctionDef, max_paths: int = 4096,
     return out
 
 
-def sym_block(stmts: list[ast.stmt], env: dict[str, ast.AST] | None = None, max_paths: int = 4096) -> list[tuple[Path, str]]:
+def sym_block(stmts: list[ast.stmt], env: dict[str, ast.AST] | None = None, max_paths: int = 4096,
+              follow: Any = None) -> list[tuple[Path, str]]:
     """Paths through a statement list (e.g. a loop body); statuses: next|return|raise|break|continue."""
-    se = SymExec(max_paths)
+    se = SymExec(max_paths, follow=follow)
     p = Path()
     p.env = dict(env or {})
     return se.block(p, list(stmts))
+
+
+def follower(prog: Any, fn: Any, stop: Iterable[str] = ()) -> Any:
+    """`follow` callback for code of `fn`: private helpers of the same class / module (never the
+    anchored names in `stop`, never overridden methods) resolve to their FunctionDef."""
+    from .normalize import ANCHOR_NAMES, _helper_target
+
+    banned = set(stop) | ANCHOR_NAMES
+
+    def follow(call: ast.Call) -> Any:
+        t = _helper_target(prog, fn, call, {})
+        if t is None or t.name in banned or t is fn.node:
+            return None
+        return t
+
+    return follow
